@@ -68,6 +68,14 @@ def run(report: Report, tier, seed):
                                   bound=f"{len(A.LEN_ROUTES)} routes x lengths {A.LEN_BOUNDARIES} x versions", cases=sum(r["ran"] for r in lr), distinct_nontrivial=len(lj), failures=len(lbad)))
     for b in lbad[:2]:
         report.violation(Violation(key=f"length:{b['job'][0]}:{b['job'][1]}", what=b["problems"][0][:400], replay={"input": {"length": b["job"]}, "teal": b.get("teal")}, confirmed_native=True))
+    sj = A.setform_jobs(tier)
+    sr = A.pool_map(A.setform_case, sj)
+    sbad = [r for r in sr if r["problems"]]
+    report.bounded.append(Bounded(function="Address / String / DynamicBytes / StaticBytes .set(<every argument form>)", contract="an accepted argument encodes to the reference bytes of the value it denotes",
+                                  bound=f"{len(A.SETFORM_TARGETS)} classes x {len(A.SETFORM_FORMS)} argument forms (str, bytes, bytearray, expression, Byte values, same class, sibling class with the same encoding, computed value) x versions x main routine / subroutine",
+                                  cases=sum(r["ran"] for r in sr), distinct_nontrivial=sum(1 for r in sr if r["accepted"]), failures=len(sbad)))
+    for b in sbad[:2]:
+        report.violation(Violation(key=f"setform:{b['job'][0]}:{b['job'][1]}", what=b["problems"][0][:400], replay={"input": {"setform": b["job"]}, "teal": b.get("teal")}, confirmed_native=True))
     report.sample({"shape": jobs[40][0], "what": "assembled with set() from parts, Log(encode()) compared with algosdk"})
     report.extra["explanation"] = "P: layout arithmetic (pyvc); B: Expr layer against algosdk on generated shapes/values"
     report.settle_undecided(lambda fn, obs: (bad[0] if bad else None) and {"input": {"shape": bad[0]["shape"], "seed": bad[0]["seed"], "version": bad[0]["version"], "in_sub": bad[0]["in_sub"]}, "problems": bad[0]["problems"][:2]})
@@ -88,6 +96,10 @@ def replay(data):
     r = data.get("replay") or {}
     nat = r.get("native") or r
     inp = nat.get("input")
+    if inp and inp.get("setform"):
+        out = A.setform_case(tuple(inp["setform"]))
+        print(out["problems"][:2])
+        return 1 if out["problems"] else 0
     if inp and inp.get("length"):
         out = A.length_case(tuple(inp["length"]))
         print(out["problems"][:2])
